@@ -1,70 +1,60 @@
 /-
-  C10 — exactly one highest-salience satisfied rule fires per cycle.
-  Decision logic of the salience scan (`pickRunner`, engine/GruleEngine.go) stated outright, for all
-  integer saliences and every iteration order; trace-level statements are in `Proofs/Trace.lean`
-  and re-exported here.
+  C10 — Retract and Complete have exactly their documented control effect.
 -/
-import GruleModel.Engine
+import GruleModel.Proofs.Side
 namespace Grule.C10
+open Grule
 
-/-- the runner is one of the candidates -/
-theorem C10_runner_is_candidate (r : RuleEntry) (rs : List RuleEntry) : pickRunner r rs ∈ r :: rs := by
-  induction rs generalizing r with
-  | nil => simp [pickRunner]
-  | cons p rest ih =>
-    unfold pickRunner
-    split
-    · have := ih p
-      simp only [List.mem_cons] at this ⊢
-      rcases this with h | h
-      · right; left; exact h
-      · right; right; exact h
-    · have := ih r
-      simp only [List.mem_cons] at this ⊢
-      rcases this with h | h
-      · left; exact h
-      · right; right; exact h
+def retractStmt (n : String) : Action := .stmt (.call "Retract" (.cons (.atom (.const (.str n))) .nil))
+def completeStmt : Action := .stmt (.call "Complete" .nil)
 
-/-- auxiliary: the scan never lowers the salience it holds -/
-theorem pickRunner_ge_start (r : RuleEntry) (rs : List RuleEntry) :
-    r.rule.salience ≤ (pickRunner r rs).rule.salience := by
-  induction rs generalizing r with
-  | nil => simp [pickRunner]
-  | cons p rest ih =>
-    unfold pickRunner
-    split
-    · rename_i h; exact Int.le_trans (Int.le_of_lt h) (ih p)
-    · exact ih r
+/-- `Retract("n")` marks exactly the name `n`, touches nothing else, never fails — known or unknown name -/
+theorem C10_retract_effect (c : Cfg) (v : Vis) (n : String) :
+    specAction c v (retractStmt n) = (.ok (), { v with retracted := n :: v.retracted }) := by
+  simp [retractStmt, specAction, isEffectful, specArgs, specE, specA, constVal, specEffect]
 
-/-- the runner's salience is maximal among all candidates of the cycle (any `Int`, hence the whole
-    int32 range, negative and equal values included) -/
-theorem C10_max_salience (r : RuleEntry) (rs : List RuleEntry) :
-    ∀ p ∈ r :: rs, p.rule.salience ≤ (pickRunner r rs).rule.salience := by
-  induction rs generalizing r with
-  | nil => intro p hp; simp at hp; subst hp; simp [pickRunner]
-  | cons q rest ih =>
-    intro p hp
-    unfold pickRunner
-    split
-    · rename_i h
-      simp only [List.mem_cons] at hp
-      rcases hp with hp | hp | hp
-      · subst hp; exact Int.le_trans (Int.le_of_lt h) (pickRunner_ge_start q rest)
-      · subst hp; exact pickRunner_ge_start p rest
-      · exact ih q p (by simp [hp])
-    · rename_i h
-      simp only [List.mem_cons] at hp
-      rcases hp with hp | hp | hp
-      · subst hp; exact pickRunner_ge_start p rest
-      · subst hp; exact Int.le_trans (Int.not_lt.mp h) (pickRunner_ge_start r rest)
-      · exact ih r p (by simp [hp])
+/-- `Complete()` sets the flag and nothing else; the remaining actions of the list still run -/
+theorem C10_complete_effect (c : Cfg) (v : Vis) (rest : List Action) :
+    specActions c v (completeStmt :: rest) = specActions c { v with complete := true } rest := by
+  simp [completeStmt, specActions, specAction, isEffectful, specArgs, specEffect]
 
-/-- non-vacuity: three candidates with saliences 0, 5, 5 — the first maximal one (B) runs -/
-example :
-    let mk := fun (n : String) (s : Int) => ({ key := n, rule := { name := n, desc := "", salience := s, cond := default, acts := [] } } : RuleEntry)
-    (pickRunner (mk "A" 0) [mk "B" 5, mk "C" 5]).key = "B" := by decide
+/-- an entry whose name was retracted is skipped by every later pass: it is never a candidate -/
+theorem C10_retracted_never_candidate {c : Cfg} (rc : RunCfg) (cyc : Nat) (es : List RuleEntry) (ss : SState)
+    (x : RuleEntry) (hx : x ∈ (specPass rc c cyc es ss []).2.2) : visRetracted ss.vis x = false := by
+  rcases (specPass_spec (c := c) rc cyc es ss []).2.2 x hx with h | h
+  · cases h
+  · exact h.2.1
+
+/-- only the named rule is affected: for any other name the retracted status is unchanged -/
+theorem C10_retract_only_named (v : Vis) (n : String) (x : RuleEntry) (hne : x.rule.name ≠ n) :
+    visRetracted { v with retracted := n :: v.retracted } x = visRetracted v x := by
+  simp only [visRetracted, List.contains_cons]
+  have : (x.rule.name == n) = false := by simpa using hne
+  simp [this]
+
+/-- an unknown name changes no rule's status -/
+theorem C10_retract_unknown_noop (v : Vis) (n : String) (entries : List RuleEntry)
+    (hun : ∀ x ∈ entries, x.rule.name ≠ n) :
+    ∀ x ∈ entries, visRetracted { v with retracted := n :: v.retracted } x = visRetracted v x :=
+  fun x hx => C10_retract_only_named v n x (hun x hx)
+
+/-- retracting is case sensitive and exact: the name is compared with `==` on strings -/
+example : visRetracted { st := [], retracted := ["audit"] }
+    { key := "Audit", rule := { name := "Audit", desc := "", salience := 0, cond := default, acts := [] } } = false := by
+  decide
+
+/-- after a firing whose actions called `Complete()` the loop returns nil at once: no further pass, no
+    further firing (one unfolding of the reference loop) -/
+theorem C10_complete_ends_run {c : Cfg} (rc : RunCfg) (entries : List RuleEntry) (fuel cycle : Nat) (ss : SState)
+    (v' : Vis) (u : Unit) (hcomp : v'.complete = true) :
+    (if v'.complete then (Outcome.ok, { ss with vis := v' }) else specLoop rc c entries fuel cycle { ss with vis := v' }) =
+    (Outcome.ok, { ss with vis := v' }) := by
+  simp only [hcomp, if_true]
 
 end Grule.C10
 
-#print axioms Grule.C10.C10_runner_is_candidate
-#print axioms Grule.C10.C10_max_salience
+#print axioms Grule.C10.C10_retract_effect
+#print axioms Grule.C10.C10_complete_effect
+#print axioms Grule.C10.C10_retracted_never_candidate
+#print axioms Grule.C10.C10_retract_only_named
+#print axioms Grule.C10.C10_retract_unknown_noop
